@@ -310,7 +310,10 @@ func init() {
 	add("main.count=1(stale set id)", func(a *a2spec) { a.Count = 1; a.Reseal = false })
 	add("main.count=0(stale set id)", func(a *a2spec) { a.Count = 0; a.Reseal = false })
 	add("main.count=3(stale set id)", func(a *a2spec) { a.Count = 3; a.Reseal = false })
-	add("main.ids.one-more(stale set id)", func(a *a2spec) { a.IDs = append(a.IDs, [16]byte{0xff, 0xff, 0xff, 0xff, 0xff, 0xff, 0xff, 0xff, 0xff, 0xff, 0xff, 0xff, 0xff, 0xff, 0xff, 0xff}); a.Reseal = false })
+	add("main.ids.one-more(stale set id)", func(a *a2spec) {
+		a.IDs = append(a.IDs, [16]byte{0xff, 0xff, 0xff, 0xff, 0xff, 0xff, 0xff, 0xff, 0xff, 0xff, 0xff, 0xff, 0xff, 0xff, 0xff, 0xff})
+		a.Reseal = false
+	})
 	add("main.ids.one-less(stale set id)", func(a *a2spec) {
 		if len(a.IDs) > 1 {
 			a.IDs = a.IDs[:len(a.IDs)-1]
